@@ -79,12 +79,21 @@ fn mix<'a>() -> impl Parser<'a, &'a str, Out, Ex<'a>> + Clone + Send + Sync {
     list.or(item.repeated().at_least(1).collect::<Vec<i64>>())
 }
 
+/// Unicode identifiers and keywords next to non-identifier symbols (character-class lookups).
+fn uni<'a>() -> impl Parser<'a, &'a str, Out, Ex<'a>> + Clone + Send + Sync {
+    let kw = text::unicode::keyword("été").to(1i64);
+    let id = text::unicode::ident().map(|s: &str| 100 + s.chars().count() as i64);
+    let sym = one_of("→≠+").to(2i64);
+    choice((kw, id, sym)).padded().repeated().at_least(1).collect::<Vec<i64>>()
+}
+
 fn make<'a>(z: usize) -> Shared<'a> {
     match z {
         0 => Arc::new(memo()),
         1 => Arc::new(pratt()),
         2 => Arc::new(valid()),
-        _ => Arc::new(mix()),
+        3 => Arc::new(mix()),
+        _ => Arc::new(uni()),
     }
 }
 
@@ -99,22 +108,25 @@ static C0: LazyLock<Cache<C<0>>> = LazyLock::new(|| Cache::new(C::<0>));
 static C1: LazyLock<Cache<C<1>>> = LazyLock::new(|| Cache::new(C::<1>));
 static C2: LazyLock<Cache<C<2>>> = LazyLock::new(|| Cache::new(C::<2>));
 static C3: LazyLock<Cache<C<3>>> = LazyLock::new(|| Cache::new(C::<3>));
+static C4: LazyLock<Cache<C<4>>> = LazyLock::new(|| Cache::new(C::<4>));
 
 fn cached<'a>(z: usize) -> &'a Shared<'a> {
     match z {
         0 => C0.get(),
         1 => C1.get(),
         2 => C2.get(),
-        _ => C3.get(),
+        3 => C3.get(),
+        _ => C4.get(),
     }
 }
 
-const NZ: usize = 4;
+const NZ: usize = 5;
 const POOLS: [&[&str]; NZ] = [
     &["aabx", "aay", "bcz", "aabz", "ay"],
     &["1+2*3", "-1^2!", "2 * (3", "4!+5"],
     &["1 2 3;", "1 300 2;", "1 x 2;", "1 2"],
     &["(let, ab, x1)", "fn abc 12", "(ac, 12345, )", "(let ; ab)", "lettuce ab"],
+    &["néé caféé", "a→ p≠ q", "été étéé", "αβγ→δ", "x+y"],
 ];
 
 fn show<'a>(p: &Shared<'a>, s: &'a str, check: bool) -> String {
